@@ -540,6 +540,9 @@ def process_fn(src_obj, containers, name, opts, subs, log):
     for kind, arg, lines in subs:
         if kind == 'ret':
             head = name_return(head, arg.strip(), log)
+    for kind, arg, lines in subs:
+        if kind == 'attr':
+            head = arg + '\n' + head.lstrip('\n')
     spec = []
     for kind, arg, lines in subs:
         if kind == 'spec':
